@@ -60,6 +60,8 @@ STRUCT = [
     "weak::Weak::<T>::upgrade", "weak::Weak::<T>::strong_count", "weak::<impl cc::Cc<T>>::downgrade",
     "weak::<impl cc::Cc<T>>::new_cyclic",
     "<cc::Cc<T> as trace::Trace>::trace",
+    "<cc::CcBox<T> as cc::InternalTrace>::finalize_elem", "<cc::CcBox<T> as cc::InternalTrace>::drop_elem",
+    "<cc::CcBox<T> as trace::Trace>::trace", "<cc::CcBox<T> as trace::Finalize>::finalize",
 ]
 
 
@@ -123,6 +125,9 @@ def obj_of(e):
                 e = strip(e[1])
                 changed = True
             elif e[0] == "call" and e[1] in ("cc::CcBox::<T>::counter_marker", "cc::Cc::<T>::counter_marker", "cc::Cc::<T>::inner", "cc::Cc::<T>::inner_ptr", "cc::CcBox::<T>::get_elem", "cc::CcBox::<T>::get_elem_mut") and e[2]:
+                e = strip(e[2][0])
+                changed = True
+            elif e[0] in ("ret", "call") and e[1] == "cc::CcBox::<()>::get_traceable" and e[2]:
                 e = strip(e[2][0])
                 changed = True
             elif e[0] in ("ref", "deref", "unsize"):
